@@ -82,7 +82,7 @@ Clauses(e) ==
     [] e.op = "dsu" ->
          LET P == PartAfter(Singles(e.size), e.ops, 1)
              got == {SetOf(e.blocks[i]) : i \in DOMAIN e.blocks}
-             bin == [i \in DOMAIN e.binary |-> {SetOf(e.binary[i][1]), SetOf(e.binary[i][2])}]
+             bin == [i \in DOMAIN e.binary |-> {SetOf(e.binary[i][j]) : j \in DOMAIN e.binary[i]}]
          IN (IF got # P \/ Len(e.blocks) # Cardinality(P) THEN {"ClausePartition"} ELSE {})
             \cup (IF e.len # Cardinality(P) THEN {"ClauseBlockCount"} ELSE {})
             \cup (IF \E i \in DOMAIN e.ops : e.rets[i] # RetAt(e.size, e.ops, i) THEN {"ClauseUniteResult"} ELSE {})
